@@ -1,4 +1,3 @@
-// appended to src/test/iterator_tests.rs in the scratch copy (uses that file's private helpers)
 #[test]
 fn verif_probe_tombstone_bottom_older_snapshot() {
 	let items = vec![
@@ -38,5 +37,42 @@ fn verif_probe_f7_versioning_open_reader() {
 		let mut result = Vec::new();
 		for item in comp_iter.by_ref() { let (key, _) = item.unwrap(); result.push(key.seq_num()); }
 		println!("PROBE_F7 snapshots={:?} kept={:?}", snaps, result);
+	}
+}
+
+#[test]
+fn verif_probe_f8_mid_hard_delete_versioning() {
+	let clock = Arc::new(MockLogicalClock::new());
+	clock.set_time(1000);
+	let items = vec![
+		(create_internal_key_with_timestamp("key1", 100, InternalKeyKind::Set, 950), b"v3".to_vec()),
+		(create_internal_key_with_timestamp("key1", 50, InternalKeyKind::Delete, 900), b"".to_vec()),
+		(create_internal_key_with_timestamp("key1", 40, InternalKeyKind::Set, 800), b"v1".to_vec()),
+	];
+	for bottom in [false, true] {
+		let iter = build_table_iterator(items.clone());
+		let mut comp_iter = CompactionIterator::new(vec![iter], create_comparator(), bottom, true, 0, clock.clone(), vec![]);
+		let mut result = Vec::new();
+		for item in comp_iter.by_ref() { let (key, _) = item.unwrap(); result.push((key.seq_num(), key.kind())); }
+		println!("PROBE_F8 bottom={} kept={:?}", bottom, result);
+	}
+}
+
+#[test]
+fn verif_probe_f9_newer_than_replace() {
+	let clock = Arc::new(MockLogicalClock::new());
+	clock.set_time(1000);
+	let items = vec![
+		(create_internal_key_with_timestamp("key1", 120, InternalKeyKind::Set, 950), b"v3".to_vec()),
+		(create_internal_key_with_timestamp("key1", 110, InternalKeyKind::Set, 900), b"v2".to_vec()),
+		(create_internal_key_with_timestamp("key1", 100, InternalKeyKind::Replace, 800), b"v1".to_vec()),
+		(create_internal_key_with_timestamp("key1", 90, InternalKeyKind::Set, 700), b"v0".to_vec()),
+	];
+	for bottom in [false, true] {
+		let iter = build_table_iterator(items.clone());
+		let mut comp_iter = CompactionIterator::new(vec![iter], create_comparator(), bottom, true, 0, clock.clone(), vec![]);
+		let mut result = Vec::new();
+		for item in comp_iter.by_ref() { let (key, _) = item.unwrap(); result.push((key.seq_num(), key.kind())); }
+		println!("PROBE_F9 bottom={} kept={:?}", bottom, result);
 	}
 }
